@@ -174,7 +174,8 @@ def nullable_navigators():
 def _set_parents(tree):
     for n in ast.walk(tree):
         for c in ast.iter_child_nodes(n):
-            c._parent = n
+            if not isinstance(c, (ast.expr_context, ast.operator, ast.boolop, ast.unaryop, ast.cmpop)):      # process-wide singletons
+                c._parent = n
     tree._parent = None
 
 
